@@ -25,8 +25,8 @@ type c11Val struct {
 	S      [3]string         `json:"s"` // LogID/Caller/Addr | StatusMessage | message
 	I      int32             `json:"i"` // StatusCode | type id
 	Extra  map[string]string `json:"extra,omitempty"`
-	HasMap bool              `json:"has_map"`                   // distinguishes nil from empty
-	Big    int               `json:"big_map_entries,omitempty"` // a generated map of this many entries (keys k<i>, values v<i>)
+	HasMap bool              `json:"has_map"`                                    // distinguishes nil from empty
+	Big    int               `json:"big_map_entries,omitempty"`                  // a generated map of this many entries (keys k<i>, values v<i>)
 	Acc    bool              `json:"built_and_read_through_accessors,omitempty"` // New*() + InitDefault + Set*; every Get*/IsSet*/String called before encoding
 }
 
@@ -498,7 +498,7 @@ func c11Run(c *mc.Ctx) {
 		id int16
 		v  ref.Value
 	}
-	ex2 := strMapV("k1", "v1", "k2", "v2")
+	ex2 := strMapV("k1", "v1", "\xe9", "\xff") // one-byte strings that are not ASCII: a byte converted as a rune would grow
 	exE := strMapV()
 	kinds := []struct {
 		kind   string
@@ -506,9 +506,9 @@ func c11Run(c *mc.Ctx) {
 		want   func(sel []int, fs []known) c11Val
 	}{
 		{"base", []known{{1, strV("log")}, {2, strV("caller")}, {3, strV(string(nonUTF8S))}, {6, ex2}}, nil},
-		{"base", []known{{1, strV("")}, {2, strV("c")}, {3, strV("a")}, {6, exE}}, nil},
+		{"base", []known{{1, strV("")}, {2, strV("c")}, {3, strV("\xe9")}, {6, exE}}, nil},
 		{"baseresp", []known{{1, strV("msg")}, {2, ref.Value{T: ref.I32, I: 0x80000001}}, {3, ex2}}, nil},
-		{"baseresp", []known{{1, strV("")}, {2, ref.Value{T: ref.I32, I: 7}}, {3, exE}}, nil},
+		{"baseresp", []known{{1, strV("\xff")}, {2, ref.Value{T: ref.I32, I: 7}}, {3, exE}}, nil},
 		{"exception", []known{{1, strV("boom")}, {2, ref.Value{T: ref.I32, I: 0xffffffff}}}, nil},
 	}
 	toWant := func(kind string, sel []int, fs []known) c11Val {
